@@ -186,3 +186,19 @@ package dispatcher
 //@   ensures [C06:no_send_means_error] sends == old(sends) ==> result.Err != nil
 //@   ensures [C06:transport_error_keeps_denial_identity] sends == old(sends) + 1 && lastDoErr != nil ==> result.Err != nil && (errIs(lastDoErr, ErrPolicyDenied) ==> errIs(result.Err, ErrPolicyDenied))
 //@   ensures [C06:status_is_the_response_status] sends == old(sends) + 1 && lastDoErr == nil ==> result.Err == nil && result.StatusCode == lastRespCode
+
+// ---- C03: a push worker asks for a lease long enough for its whole micro-batch (it must not deliver under an expired lease) ----
+
+//@ spec
+//@ func effTargetTimeout(t TargetConfig) int := ite(t.Timeout > 0, t.Timeout, 10000000000)
+
+//@ func routeDequeueBatch
+//@   ensures [C03:micro_batch_between_1_and_4] result >= 1 && result <= 4 && (concurrency <= 1 ==> result == 1)
+
+//@ func routeMutationBatch
+//@   ensures [C03:mutation_batch_between_1_and_4] result >= 1 && result <= 4 && result <= max(dequeueBatch, 1)
+
+//@ func routeLeaseTTL
+//@   loop 1 invariant [max_so_far] rangeindex < len(targets) && maxTimeout >= 0 && forall k int :: 0 <= k && k <= rangeindex ==> maxTimeout >= effTargetTimeout(targets[k])
+//@   ensures [C03:lease_covers_every_target_timeout_for_the_whole_batch_plus_slack] forall k int :: 0 <= k && k < len(targets) ==> result >= effTargetTimeout(targets[k]) * max(dequeueBatch, 1) + leaseSlack
+//@   ensures [C03:lease_at_least_30s] result >= 30000000000
